@@ -173,11 +173,15 @@ def toksCs (pend : Str) : List Comment → List Tok × Str
 
 def textTok (p : Str) : List Tok := if p = [] then [] else [.text p]
 
-/-- tokens of `serialize ll true [] true d` for a well-formed `d` -/
-def toksDoc (d : Doc) : List Tok :=
-  let a := toksCs [] d.pre
+/-- tokens of `pend ++ serialize ll true [] true d` for a well-formed `d` and white space `pend`
+(the line break that ends the XML declaration) -/
+def toksDocP (pend : Str) (d : Doc) : List Tok :=
+  let a := toksCs pend d.pre
   let b := toksCs [] d.post
   a.1 ++ textTok a.2 ++ toksE [] true 0 d.root ++ b.1 ++ [.text (b.2 ++ ['\n'])]
+
+/-- tokens of `serialize ll true [] true d` for a well-formed `d` -/
+def toksDoc (d : Doc) : List Tok := toksDocP [] d
 
 /-- the raw document the reader builds -/
 def rawDoc (d : Doc) : Doc := ⟨d.pre, rawOf [] true d.root, d.post⟩
